@@ -124,12 +124,12 @@ func quicBaseCases(c *ctxT, r *gen.R) {
 		default:
 			acls, anpk, alens = "other-error", 0, sx.L()
 		}
-		c.emit(sx.L(sx.S("stack"), sxZ(int64(reported)), sx.L(), sx.L(sx.S("pat"), sx.N(aseed), sx.I(asize))),
+		c.emit(sx.L(sx.S("stack"), sxZ(int64(reported)), sx.L(), sx.L(sx.S("zeros"), sx.I(asize))),
 			sx.L(sxZ(int64(reported)), sx.S(acls), sx.I(anpk), sx.I(1), alens, sx.I(aintact)))
 		c.count("stack/quic-base-ask/" + acls)
 		a.Close()
 		b.Close()
-		c.emit(sx.L(sx.S("stack"), sxZ(int64(reported)), sx.L(), sx.L(sx.S("pat"), sx.N(seed), sx.I(size))),
+		c.emit(sx.L(sx.S("stack"), sxZ(int64(reported)), sx.L(), sx.L(sx.S("zeros"), sx.I(size))),
 			sx.L(sxZ(int64(reported)), sx.S(cls), sx.I(npk), sx.I(1), lens, sx.I(intact)))
 		c.count("stack/quic-base/" + cls)
 	}
